@@ -266,6 +266,40 @@ pub fn run(ctx: &mut Ctx, replay: Option<&str>) {
             ctx.count("stream.special_claim_set");
         }
     }
+    // claims nested deeper than any JSON parser's default limit (built in memory; the model cannot read them): under AllLevels
+    // every member and element at every depth gets its own disclosure, and nothing below the top level stays in the payload
+    if replay.is_none() {
+        let mut r = ctx.rng.fork(7_000_002);
+        for (k, d) in (if ctx.tier == Tier::Quick { vec![70usize, 135] } else { vec![40, 70, 100, 129, 135, 200] }).into_iter().enumerate() {
+            let claims = gen_deep_claims(&mut r, d, crate::imp::now());
+            let a = IssueArgs { claims: claims.clone(), strategy: Strategy::All, holder: None, decoy: k % 2 == 0, fmt: if k % 2 == 0 { Fmt::Compact } else { Fmt::Json }, key: KeyId::Hmac1, alg: Some("HS256".into()), queue: None };
+            let res = issue(&a);
+            ctx.impl_calls += 1;
+            ctx.evaluations += 1;
+            ctx.oracle_checks += 1;
+            let case = json!({"deep_chain": {"depth": depth_of(&claims), "strategy": "all", "decoy": a.decoy, "fmt": a.fmt.name()}});
+            let mut ps = vec![];
+            all_positions(&claims, &vec![], &mut ps);
+            let expected = ps.iter().filter(|p| !matches!(p.first(), Some(Step::Key(k)) if ["iss", "iat", "exp"].contains(&k.as_str()))).count();
+            match res.out.ok().and_then(|s| split(a.fmt, s)) {
+                Some(parts) => {
+                    let payload = parts.payload().unwrap_or(Value::Null);
+                    let clear: Vec<&String> = payload.as_object().map(|m| m.keys().filter(|k| !["_sd", "_sd_alg", "iss", "iat", "exp"].contains(&k.as_str())).collect()).unwrap_or_default();
+                    if parts.disclosures.len() != expected {
+                        ctx.violation("oracle", "issue", "AllLevels over a deep claim set: the number of disclosures is not the number of members and elements", case, json!({"disclosures": parts.disclosures.len()}), json!({"positions": expected}));
+                    } else if !clear.is_empty() {
+                        ctx.violation("oracle", "issue", "AllLevels over a deep claim set: a claim stays in clear at top level", case, json!({"in_clear": clear}), json!([]));
+                    } else if a.decoy && parts.disclosures.iter().filter_map(|x| decode_disclosure(x)).any(|dv| dv.as_array().and_then(|x| x.last()).map(|v| v.is_object() && v.get("_sd").is_none()).unwrap_or(false)) {
+                        ctx.violation("oracle", "issue", "decoys on: an object inside a disclosed value of a deep claim set carries no _sd list at all", case, json!("an object without _sd"), json!("every object carries at least one decoy digest"));
+                    } else {
+                        ctx.nontrivial(&case);
+                    }
+                }
+                None => ctx.violation("oracle", "issue", "a deep claim set was not issued under AllLevels", case, res.out.describe(), json!("Ok")),
+            }
+            ctx.count("stream.deep_chain_in_memory");
+        }
+    }
     let mut reqs = vec![];
     let mut results = vec![];
     for a in &cases {
